@@ -31,7 +31,7 @@ CHECKS["C15"] = {
         {"pkg": "internal/queue", "run": "^TestVerif_C15_Conc", "inst": ["internal/queue/simple.go", "internal/queue/priority.go"],
          Q: {"timeout": 300}, T: {"timeout": 3000, "shards": 11}},
     ],
-    "mandatory_labels": {"all": ["seq-simple/wait-nonempty", "seq-priority/ties", "seq-priority/nextall",
+    "mandatory_labels": {"all": ["seq-simple/wait-nonempty", "seq-priority/ties", "seq-priority/nextall", "seq-priority/burst-of-parked-items",
                                  "conc/schedules", "conc/add-between-unlock-and-select", "conc/with-cancel", "prio-conc/add-during-flush", "prio-conc/dfs-schedules"]},
 }
 
@@ -453,8 +453,8 @@ _ADDED6 = {
     "C12": "Descriptors are derived from every accepted way of holding a multi-member group in each case, including invitations that spell out the optional sign_pub / link_key fields.",
     "C13": "The whole (since, until, reverse) cube also over merged logs of two writers with concurrent entries, on two replicas.",
     "C14": "Service layer: the stand-alone push service created on the account's root datastore (its default secret store next to the application's), pushes of one sender opened through the service, through the application's store or arriving through the log with generated distances between counters (reply fields and AlreadyReceived flag checked).",
-    "C15": "Priority counters over the whole uint64 range (the counter comes from the sender's header).",
-    "C16": "The controlled scheduler models sync.RWMutex writer preference (readers arriving after a waiting writer wait behind it); the peer cache scenarios add readers (GetPeersForTopics / GetPeers) next to updater and waiters.",
+    "C15": "Priority counters over the whole uint64 range (the counter comes from the sender's header); bursts of 20-300 parked items followed by partial drains in both sequential machines.",
+    "C16": "The controlled scheduler models sync.RWMutex writer preference (readers arriving after a waiting writer wait behind it); the peer cache scenarios add readers (GetPeersForTopics / GetPeers) next to updater and waiters. Tracker scenarios with two waiters of one group: the list handed to a waiter must read the same after other tasks ran.",
     "C18": "Round trips also read every frame of a type into the same destination object (the usual receive loop), with frames of length zero after longer ones.",
     "C19": "Odd groups (validly signed invitations with secrets of unusual length) joined and then used by the other requests.",
     "C20": "An older backup refused into an existing account followed by the current export.",
